@@ -620,13 +620,15 @@ class FPNum:
         if (self.nan):
             return math.nan
         
-        from decimal import Decimal
-        n2 = Decimal(2)
-        r = n2 ** Decimal(self.e)
-        r = r * Decimal(self.m)
-        r = r / Decimal(self.p)
-        r = r * Decimal(self.s)
-        return float(r)
+        from decimal import Decimal, Context, localcontext
+        # own decimal context: the result must not depend on the precision / rounding the caller (or other code) left behind
+        with localcontext(Context(prec=60)):
+            n2 = Decimal(2)
+            r = n2 ** Decimal(self.e)
+            r = r * Decimal(self.m)
+            r = r / Decimal(self.p)
+            r = r * Decimal(self.s)
+            return float(r)
     
     def reduceExponentPrecision(self, prec):
         mask = (1 << prec) - 1
